@@ -152,7 +152,7 @@ def valLt (a b : Val) : Option Bool :=
 
 def insertSorted (x : Val) : List Val → List Val
   | [] => [x]
-  | y :: ys => if valLt x y == some true then x :: y :: ys else y :: insertSorted x ys
+  | y :: ys => if valLt y x == some true then y :: insertSorted x ys else x :: y :: ys
 
 /-- Stable sort (`list.sort`) by `valLt`. -/
 def sortVals (xs : List Val) : List Val := xs.reverse.foldl (fun acc x => insertSorted x acc) []
@@ -293,47 +293,80 @@ def getField (env : Env) : List Field → String → Option Field
 def eraseKey (kvs : List (String × Val)) (k : String) : List (String × Val) :=
   kvs.filter (fun kv => kv.1 != k)
 
+/-- A value handed to a write: a plain Python value, or an already typed symbolic container
+(`pg.List` / `pg.Dict` bound to the value spec `src`, created with `allow_partial = sp`). -/
+inductive Arg where
+  | plain (v : Val)
+  | typed (src : Spec) (sp : Bool) (v : Val)
+
+def Arg.val : Arg → Val
+  | .plain v => v
+  | .typed _ _ v => v
+
+/-- `field.apply(value)` for a write argument.  A typed container takes the `CustomTyping` route
+(value_specs.py 280-287; `custom_apply`, list.py / dict.py): the destination must declare itself
+compatible with the bound spec (else ValueError); if the partial modes agree the value is
+*trusted* and stored without validation, otherwise it is validated by the standard apply
+(with the F62 repair: a partial container is refused by a destination that requires a complete
+value).  `partialB` is `value.is_partial`. -/
+def applyArg (env : Env) (dest : Spec) (p : Bool) (partialB : Val → Bool) : Arg → R Val
+  | .plain v => apply env dest p v
+  | .typed src sp v =>
+    if dest.flags.frozen then apply env dest p v
+    else if !isCompatible env dest src then .error .value
+    else if sp == p then .ok v
+    else if !p && partialB v then .error .value
+    else apply env dest p v
+
+/-- `MaybePartial.is_partial` of a container value: some member is `MISSING_VALUE` (deep). -/
+partial def hasMissing : Val → Bool
+  | .missing => true
+  | .list xs => xs.any hasMissing
+  | .tuple xs => xs.any hasMissing
+  | .dict kvs => kvs.any (fun kv => hasMissing kv.2)
+  | _ => false
+
 /-- `_set_item_without_permission_check(key, value)` of a typed Dict (dict.py 535-585):
 undeclared keys are refused; `MISSING_VALUE` deletes a dynamic key and restores the default of a
 const key; everything stored went through `field.apply`. -/
-def dictPrim (env : Env) (p : Bool) (d : TDict) (k : String) (v : Val) : TDict × Option E :=
+def dictPrim (env : Env) (p : Bool) (pb : Val → Bool) (d : TDict) (k : String) (a : Arg) : TDict × Option E :=
   match getField env d.fields k with
   | none => (d, some .key)
   | some (.mk ks spec) =>
-    if v.isMissing && !ks.isConst then ({ d with kvs := eraseKey d.kvs k }, none)
+    if a.val.isMissing && !ks.isConst then ({ d with kvs := eraseKey d.kvs k }, none)
     else
-      let v0 := if v.isMissing then spec.flags.default else v
-      match apply env spec p v0 with
+      let a0 := if a.val.isMissing then Arg.plain spec.flags.default else a
+      match applyArg env spec p pb a0 with
       | .error e => (d, some (ofErr e))
       | .ok w => ({ d with kvs := setKey d.kvs k w }, none)
 
 /-- Batched writes (`rebind` / `update`), in the given order; a failure keeps the applied prefix. -/
-def dictBatch (env : Env) (p : Bool) (d : TDict) : List (String × Val) → TDict × Option E
+def dictBatch (env : Env) (p : Bool) (pb : Val → Bool) (d : TDict) : List (String × Arg) → TDict × Option E
   | [] => (d, none)
   | (k, v) :: rest =>
-    match dictPrim env p d k v with
-    | (d', none) => dictBatch env p d' rest
+    match dictPrim env p pb d k v with
+    | (d', none) => dictBatch env p pb d' rest
     | (d', some e) => (d', some e)
 
 inductive DictOp where
-  | setitem (k : String) (v : Val)          -- also `__setattr__`
+  | setitem (k : String) (v : Arg)          -- also `__setattr__`
   | delitem (k : String)                    -- also `pop(k)`
-  | setdefault (k : String) (v : Val)
-  | update (kvs : List (String × Val))      -- also `|=` and `rebind`
+  | setdefault (k : String) (v : Arg)
+  | update (kvs : List (String × Arg))      -- also `|=` and `rebind`
   | clear
   | popitem
 
-def dictStep (env : Env) (p : Bool) (d : TDict) : DictOp → TDict × Option E
-  | .setitem k v => dictPrim env p d k v
+def dictStep (env : Env) (p : Bool) (pb : Val → Bool) (d : TDict) : DictOp → TDict × Option E
+  | .setitem k v => dictPrim env p pb d k v
   | .delitem k =>
     match lookup d.kvs k with
     | none => (d, some .key)                                              -- 723
-    | some _ => dictPrim env p d k .missing
+    | some _ => dictPrim env p pb d k (.plain .missing)
   | .setdefault k v =>
     match lookup d.kvs k with
-    | some x => if x.isMissing then dictPrim env p d k v else (d, none)   -- 798-806
-    | none => dictPrim env p d k v
-  | .update kvs => dictBatch env p d kvs
+    | some x => if x.isMissing then dictPrim env p pb d k v else (d, none)   -- 798-806
+    | none => dictPrim env p pb d k v
+  | .update kvs => dictBatch env p pb d kvs
   | .clear =>                                                             -- 787-796 with the F60 repair
     match schemaApply env d.fields p [] with
     | .ok kvs => ({ d with kvs := kvs }, none)
